@@ -37,6 +37,17 @@ class QuaIO(GameIO):
 
         return QuaMap.read_file(path)
 
+    def read_api(self, data, layout=None, raw_newlines=False):
+        from reamber.quaver.QuaMap import QuaMap
+
+        text = data.decode("utf8")
+        if not raw_newlines:
+            text = text.replace("\r\n", "\n")
+        return QuaMap.read(text if len(data) % 2 else text.split("\n"))
+
+    def write_api(self, obj, layout=None) -> bytes:
+        return obj.write().encode("utf8")
+
     def write(self, obj, path, layout=None):
         return obj.write_file(path)
 
